@@ -292,6 +292,20 @@ void stop_auth_server()
     http_bitcoin::StopHTTPServer();
 }
 
+/** both loopback addresses must be free, otherwise another process could answer on 127.0.0.1 while we only got ::1 */
+bool port_free(uint16_t port)
+{
+    int fd = socket(AF_INET, SOCK_STREAM, 0);
+    if (fd < 0) return false;
+    sockaddr_in sa{};
+    sa.sin_family = AF_INET;
+    sa.sin_port = htons(port);
+    sa.sin_addr.s_addr = htonl(INADDR_LOOPBACK);
+    bool ok = bind(fd, reinterpret_cast<sockaddr*>(&sa), sizeof sa) == 0;
+    close(fd);
+    return ok;
+}
+
 void init_auth()
 {
     SelectParams(ChainType::REGTEST);
@@ -307,6 +321,7 @@ void init_auth()
     bool up = false;
     for (int attempt = 0; attempt < 40 && !up; ++attempt) {
         g_port = uint16_t(21000 + (uint32_t(getpid()) * 7 + uint32_t(attempt) * 1013) % 20000);
+        if (!port_free(g_port)) continue;
         gArgs.ForceSetArg("-rpcport", std::to_string(g_port));
         up = http_bitcoin::InitHTTPServer();
     }
